@@ -77,7 +77,7 @@ def run(ctx, res):
             if p.end != "exit":
                 continue
             evs = [e for e in p.events if e.kind != "branch"]
-            ci = [i for i, e in enumerate(evs) if e.kind == "store" and e.node["id"] == n["id"]]
+            ci = [i for i, e in enumerate(evs) if e.kind == "store" and same_node(e.node, n)]
             if not ci:
                 continue
             # only the last checksum definition on a path reaches the file
